@@ -5,8 +5,10 @@ package main
 
 import (
 	"fmt"
+	"os"
 	"go/token"
 	"go/types"
+	"sort"
 	"strings"
 
 	"golang.org/x/tools/go/ssa"
@@ -101,8 +103,25 @@ func (x *Exec) callFn(st *State, fn *ssa.Function, bind []*Val, args []*Val, pos
 	if h, ok := x.w.intrinsic(fn); ok {
 		return h(x, st, fn, args, pos)
 	}
-	if con := x.w.contracts[name]; con != nil && !(x.unitFn == fn && false) {
-		if !con.Inline || x.ghost > 0 && false {
+	if x.inlineNames[fn.Name()] && fn.Blocks != nil {
+		// bounded harness: this callee is executed itself (loops unrolled), its own callees
+		// are still replaced by their contracts
+		x.calls["inlined (bounded harness): "+name]++
+		save := x.unrollOverride
+		x.unrollOverride = x.harnessUnroll
+		vals, ns, err := x.runFuncBind(fn, args, bind, st, nil)
+		x.unrollOverride = save
+		if err != nil {
+			return nil, err
+		}
+		st.heaps, st.pc, st.top, st.havocs = ns.heaps, ns.pc, ns.top, ns.havocs
+		return vals, nil
+	}
+	if con := x.w.contracts[name]; con != nil {
+		if con.Opaque {
+			return x.callOpaque(st, fn, con, args, pos)
+		}
+		if !con.Inline {
 			return x.callByContract(st, fn, con, args, pos)
 		}
 	}
@@ -227,7 +246,6 @@ func (x *Exec) callByContract(st *State, fn *ssa.Function, con *Contract, args [
 		}
 	}
 	for k, rf := range con.Reqs {
-		x.skolems = nil
 		g, err := x.ghostBool(st, rf, args, false)
 		if err != nil {
 			return nil, err
@@ -316,6 +334,9 @@ func (x *Exec) callByContract(st *State, fn *ssa.Function, con *Contract, args [
 		if err != nil {
 			return nil, err
 		}
+		if g.IsFalse() && os.Getenv("GOCV_DEBUG") != "" {
+			fmt.Fprintf(os.Stderr, "DEBUG: ensures of %s folds to false at %s (pc %s)\n", con.Key, x.posStr(pos), x.full(st).Pretty(300))
+		}
 		x.assumeIn(st, g)
 		gs = append(gs, g)
 	}
@@ -368,11 +389,54 @@ func (x *Exec) applyDefinitions(st *State, gs []*Term, res []*Val) {
 			if c.Op == "var" {
 				rv[c.id] = slot{r, i}
 			}
+			if c.Op == "zext" && c.Args[0].Op == "var" {
+				rv[c.Args[0].id] = slot{r, i}
+			}
 		}
 	}
 	var cs []*Term
 	for _, g := range gs {
 		cs = conjuncts(g, cs)
+	}
+	// conditional definitions: (cond => r == t) makes r := ite(cond, t, r); the condition
+	// usually is a literal of later path conditions (err == nil), under which the solver
+	// front end (RewriteUnder) collapses the ite to t.
+	tb := x.tb
+	for _, c := range cs {
+		if c.Op != "or" {
+			continue
+		}
+		for ai, alt := range c.Args {
+			if alt.Op != "and" && alt.Op != "=" {
+				continue
+			}
+			var others []*Term
+			for aj, o := range c.Args {
+				if aj != ai {
+					others = append(others, tb.Not(o))
+				}
+			}
+			cond := tb.And(others...)
+			for _, e := range conjuncts(alt, nil) {
+				if e.Op != "=" {
+					continue
+				}
+				for k := 0; k < 2; k++ {
+					l, r := e.Args[k], e.Args[1-k]
+					base := l
+					if l.Op == "zext" && l.Args[0].Op == "var" {
+						base = l.Args[0]
+					}
+					if base.Op != "var" {
+						continue
+					}
+					if s, ok := rv[base.id]; ok && s.v.C[s.i] == l && !mentions(r, base) && !mentions(cond, base) {
+						s.v.C[s.i] = tb.Ite(cond, r, l)
+						break
+					}
+				}
+			}
+		}
 	}
 	for _, c := range cs {
 		if c.Op != "=" {
@@ -400,6 +464,77 @@ func (x *Exec) applyDefinitions(st *State, gs []*Term, res []*Val) {
 			}
 		}
 	}
+}
+
+// callOpaque: an opaque (recursive) spec function is an uninterpreted function of its
+// arguments and of the version of every heap component it reads; each call site adds one
+// unfolding of the body (recursive calls inside stay opaque).
+func (x *Exec) callOpaque(st *State, fn *ssa.Function, con *Contract, args []*Val, pos token.Pos) ([]*Val, error) {
+	tb := x.tb
+	if x.unfolding == nil {
+		x.unfolding = map[*ssa.Function]int{}
+		x.memVer = map[*Mem]uint64{}
+	}
+	var flat []*Term
+	for _, a := range args {
+		flat = append(flat, a.C...)
+	}
+	// versions of the heaps the function reads
+	reads := x.w.readPrefixes(fn)
+	var names []string
+	for name := range st.heaps {
+		if prefixWritten(reads, name) {
+			names = append(names, name)
+		}
+	}
+	sortStrings(names)
+	for _, name := range names {
+		m := st.heaps[name]
+		if m.kind == mBase && x.bases[name] == m {
+			continue // initial version: no token needed (keeps terms small)
+		}
+		v, ok := x.memVer[m]
+		if !ok {
+			v = uint64(len(x.memVer) + 1)
+			x.memVer[m] = v
+		}
+		flat = append(flat, tb.BV(64, v))
+	}
+	// havocs that cover a read heap which has not been materialised yet
+	for _, h := range st.havocs {
+		for p := range reads {
+			if h.covers(p) || h.covers(p+"#ref") || h.covers(p+"$p") {
+				if _, ok := st.heaps[p]; !ok {
+					flat = append(flat, tb.BV(64, uint64(1)<<32+uint64(h.id)))
+				}
+				break
+			}
+		}
+	}
+	rt := fn.Signature.Results().At(0).Type()
+	cs := flatten(rt)
+	if len(cs) != 1 {
+		return nil, fmt.Errorf("opaque spec function %s must return a scalar", fn.Name())
+	}
+	key := fmt.Sprintf("sf:%s/%d", fn.Name(), len(flat))
+	app := tb.App(key, cs[0].sort, flat...)
+	res := &Val{T: rt, C: []*Term{app}}
+	if x.unfolding[fn] == 0 {
+		x.unfolding[fn]++
+		vals, err := func() ([]*Val, error) {
+			x.ghost++
+			defer func() { x.ghost-- }()
+			s2 := st.clone()
+			v, _, err := x.runFuncBind(fn, args, nil, s2, nil)
+			return v, err
+		}()
+		x.unfolding[fn]--
+		if err != nil {
+			return nil, fmt.Errorf("unfolding %s: %w", fn.Name(), err)
+		}
+		x.fact(tb.Eq(app, vals[0].C[0]))
+	}
+	return []*Val{res}, nil
 }
 
 // locInFrame: location l is covered by the unit's own frame (or is fresh).
@@ -524,9 +659,11 @@ func (x *Exec) appendOp(st *State, com *ssa.CallCommon, args []*Val, pos token.P
 	r := x.alloc(grow, "grown")
 	x.nsym++
 	ncap := tb.ZExt(64, tb.Var(fmt.Sprintf("cap!%d", x.nsym), sizeBits))
-	x.fact(tb.Cmp("bvule", newLen, ncap))
+	// (assumed on this path only: newLen is a term over the inputs)
+	notFits := tb.Not(fits)
+	x.assumeIn(st, tb.Implies(notFits, tb.Cmp("bvule", newLen, ncap)))
 	// Go's growth policy: at most doubling plus rounding to a size class (trusted bound)
-	x.fact(tb.Cmp("bvule", ncap, tb.Add(tb.Bin("bvmul", tb.BV(64, 2), newLen), tb.BV(64, 64))))
+	x.assumeIn(st, tb.Implies(notFits, tb.Cmp("bvule", ncap, tb.Add(tb.Bin("bvmul", tb.BV(64, 2), newLen), tb.BV(64, 64)))))
 	x.bulkCopy(grow, et, r, tb.BV(64, 0), s.C[2], s.C[0], s.C[1])
 	x.bulkCopy(grow, et, r, s.C[2], n, tRef, tOff)
 	if x.ghost == 0 {
@@ -641,10 +778,7 @@ func hAssert(x *Exec, st *State, fn *ssa.Function, args []*Val, pos token.Pos) (
 		}
 	}
 	g := args[0].C[0]
-	sk := x.skolems
-	x.skolems = nil
 	x.oblige(st, "assert", fmt.Sprintf("assert.%s@%s", name, x.posStr(pos)), pos, g)
-	_ = sk
 	return nil, nil
 }
 
@@ -788,7 +922,10 @@ func (x *Exec) instantiatePending() []*Term {
 		return nil
 	}
 	var out []*Term
-	terms := append([]*Term{}, x.allSkolems...)
+	var terms []*Term
+	for _, sk := range x.skolems {
+		terms = append(terms, sk, x.tb.Add(sk, x.tb.BV(64, 1)), x.tb.Sub(sk, x.tb.BV(64, 1)))
+	}
 	terms = append(terms, x.hints...)
 	seen := map[int]bool{}
 	for _, p := range x.pend {
@@ -898,6 +1035,8 @@ func hErrorf(x *Exec, st *State, fn *ssa.Function, args []*Val, pos token.Pos) (
 	x.store(st, &Addr{prefix: "X:wrapped", keys: []*Term{r}}, wrapped)
 	return []*Val{res}, nil
 }
+
+func sortStrings(s []string) { sort.Strings(s) }
 
 func trimPkg(s string) string {
 	if i := strings.LastIndex(s, "/"); i >= 0 {
